@@ -350,14 +350,14 @@ Qed.
 Definition aimed_at (i : Z) (o : op) : bool :=
   match o with
   | Step j _ | RunModel j _ | SetRunning j _ => j =? i
-  | NewInstance _ => false
+  | NewInstance _ | Clone _ => false
   end.
 Definition inst_step (h : hierarchy) (i : Z) (st : mstate) (o : op) : mstate :=
   match o with
   | Step _ args => res_state (wrapped_step h i st args)
   | RunModel _ fuel => match resolve h 0 with None => st | Some _ => res_state (run_model fuel h i st) end
   | SetRunning _ b => {| steps := steps st; running := b |}
-  | NewInstance _ => st
+  | NewInstance _ | Clone _ => st
   end.
 
 Lemma class_of_set_same w i st c x h :
@@ -385,7 +385,7 @@ Lemma step_one w o i x h :
 Proof.
   intros Hc. unfold step. destruct (step_op w o) as [w' r] eqn:Es. cbn [fst].
   assert (w' = fst (step_op w o)) as -> by (rewrite Es; reflexivity). clear Es r.
-  destruct o as [c|j args|j fuel|j b]; simpl.
+  destruct o as [c|j args|j fuel|j b|j]; simpl.
   - destruct (znth (w_classes w) c); [|exact Hc].
     destruct (negb _); [exact Hc|]. cbn [fst].
     unfold class_of in *. cbn [w_insts w_classes].
@@ -408,7 +408,13 @@ Proof.
     + assert (j =? i = false) as -> by (apply Z.eqb_neq; exact Hne).
       destruct (class_of w j) as [[xj hj]|] eqn:Ej; [|exact Hc]. cbn [fst].
       rewrite (class_of_set_other _ _ _ _ _ _ _ Ej); [exact Hc|congruence].
+  - destruct (class_of w j) as [[xj hj]|]; [|exact Hc]. cbn [fst].
+    unfold class_of in *. cbn [w_insts w_classes].
+    destruct (znth (w_insts w) i) as [x0|] eqn:E; [|discriminate].
+    rewrite (znth_app_old _ _ _ _ E). exact Hc.
 Qed.
+
+
 
 (* the state of instance i after an interleaved history = its state after its own operations alone *)
 Theorem projection ops : forall w i x h,
@@ -427,6 +433,24 @@ Lemma independent w o i x h :
   class_of w i = Some (x, h) -> aimed_at i o = false -> class_of (fst (step w o)) i = Some (x, h).
 Proof. intros Hc Ha. rewrite (step_one w o i x h Hc), Ha. reflexivity. Qed.
 
+(* a pickle round trip / deepcopy yields a new instance of the same class with the same counter and flag; from
+   there on it is an instance like any other (projection, exactly-one, ... apply to it) *)
+Lemma clone_spec w i x h :
+  class_of w i = Some (x, h) ->
+  class_of (fst (step w (Clone i))) (zlen (w_insts w)) = Some ({| i_cls := i_cls x; i_st := i_st x |}, h) /\
+  class_of (fst (step w (Clone i))) i = Some (x, h).
+Proof.
+  intros Hc. split; [|apply independent; [exact Hc|reflexivity]].
+  unfold step. simpl. rewrite Hc. cbn [fst]. unfold class_of in *. cbn [w_insts w_classes].
+  destruct (znth (w_insts w) i) as [x0|] eqn:E; [|discriminate].
+  destruct (znth (w_classes w) (i_cls x0)) as [h0|] eqn:Ec; [|discriminate]. inversion Hc; subst.
+  assert (znth (w_insts w ++ [{| i_cls := i_cls x; i_st := i_st x |}]) (zlen (w_insts w)) =
+          Some {| i_cls := i_cls x; i_st := i_st x |}) as ->.
+  { unfold znth, zlen. assert (Z.of_nat (length (w_insts w)) <? 0 = false) as -> by (apply Z.ltb_ge; lia).
+    rewrite Nat2Z.id, nth_error_app2 by lia. rewrite Nat.sub_diag. reflexivity. }
+  cbn [i_cls]. rewrite Ec. reflexivity.
+Qed.
+
 (* counting: without run_model in the history, steps = number of step calls aimed at the instance, whatever
    their arguments and outcomes *)
 Definition is_step_at (i : Z) (o : op) : bool := match o with Step j _ => j =? i | _ => false end.
@@ -439,12 +463,13 @@ Lemma fold_count h i ops : rec_free h = true -> forall st,
 Proof.
   intros Hrf. induction ops as [|o t IH]; intros st Hn; simpl; [lia|].
   simpl in Hn. apply andb_true_iff in Hn. destruct Hn as [Ho Ht].
-  destruct o as [c|j args|j fuel|j b]; simpl in *; try discriminate.
+  destruct o as [c|j args|j fuel|j b|j]; simpl in *; try discriminate.
   - apply IH. exact Ht.
   - destruct (j =? i); simpl.
     + rewrite IH by exact Ht. rewrite wrapped_exactly_one by exact Hrf. lia.
     + apply IH. exact Ht.
   - destruct (j =? i); simpl; rewrite IH by exact Ht; simpl; lia.
+  - apply IH. exact Ht.
 Qed.
 
 Theorem steps_count_calls ops w i x h :
